@@ -127,13 +127,18 @@ theorem putEntry_cfg (s : St) (e : PutEntry) : (putEntry s e).1.char.cfg = s.cha
   · rfl
   · exact updateValue_cfg ..
 
-/-- without `ev`: the subscription flag is untouched, and an entry that carries `ev` and is processed
-    gets the status entry -/
+/-- the status an entry of a request gets on a characteristic without `ev` (and with or without `pw`), if it fails -/
+def failStatus (pw : Bool) (e : PutEntry) : Option Int :=
+  if !JVal.isNull e.ev then some statusNotificationNotSupported
+  else if !JVal.isNull e.value && !pw then some statusReadOnly
+  else none
+
+/-- without `ev`: the subscription flag is untouched, and an entry that is processed fails exactly when it carries `ev`
+    or carries a value for a characteristic that is not writable -/
 theorem putEntry_no_ev (s : St) (h : s.char.cfg.perms.ev = false) (e : PutEntry) :
     (putEntry s e).1.sub = s.sub ∧
-    ((putEntry s e).2.1 = .ok →
-      (putEntry s e).2.2 = if JVal.isNull e.ev then none else some statusNotificationNotSupported) := by
-  unfold putEntry
+    ((putEntry s e).2.1 = .ok → (putEntry s e).2.2 = failStatus s.char.cfg.perms.pw e) := by
+  unfold putEntry failStatus
   by_cases hn : JVal.isNull e.value = true
   · simp only [hn, if_true]
     by_cases hev : JVal.isNull e.ev = true
@@ -147,13 +152,12 @@ theorem putEntry_no_ev (s : St) (h : s.char.cfg.perms.ev = false) (e : PutEntry)
       · simp [hev, hc, h]
     · simp
 
-/-- the status entries an `ev`-less characteristic's request must produce -/
-def evStatuses (es : List PutEntry) : List Int :=
-  (es.filter fun e => !JVal.isNull e.ev).map fun _ => statusNotificationNotSupported
+/-- the statuses of the entries that fail on an `ev`-less characteristic -/
+def evStatuses (pw : Bool) (es : List PutEntry) : List Int := es.filterMap (failStatus pw)
 
 theorem putEntries_no_ev (es : List PutEntry) : ∀ (s : St) (acc : List Int), s.char.cfg.perms.ev = false →
     (putEntries s es acc).1.sub = s.sub ∧
-    ((putEntries s es acc).2.1 = .ok → (putEntries s es acc).2.2 = acc ++ evStatuses es) := by
+    ((putEntries s es acc).2.1 = .ok → (putEntries s es acc).2.2 = acc ++ evStatuses s.char.cfg.perms.pw es) := by
   induction es with
   | nil => intro s acc _; simp [putEntries, evStatuses]
   | cons e es ih =>
@@ -169,8 +173,12 @@ theorem putEntries_no_ev (es : List PutEntry) : ∀ (s : St) (acc : List Int), s
       simp only at he hc ⊢
       have ih' := ih s1 (acc ++ st.toList) (by rw [hc]; exact h)
       refine ⟨by rw [ih'.1, he.1], fun hok => ?_⟩
-      rw [ih'.2 hok, he.2 trivial]
-      by_cases hev : JVal.isNull e.ev = true <;> simp [evStatuses, List.filter, hev]
+      rw [ih'.2 hok, he.2 trivial, hc]
+      cases hf : failStatus s.char.cfg.perms.pw e <;> simp [evStatuses, List.filterMap_cons, hf]
+
+theorem putStatuses_length : ∀ (es : List PutEntry) (s : St), (putStatuses s es).length = es.length
+  | [], _ => rfl
+  | e :: es, s => by simp [putStatuses, putStatuses_length es]
 
 theorem step_cfg (s : St) (o : Op) : (step s o).1.char.cfg = s.char.cfg := by
   cases o with
